@@ -666,18 +666,15 @@ def walk(data: bytes, start: int = 0, end: int | None = None, parent=None) -> li
             raise BoxError(f"{end - pos} stray bytes at {pos} inside {parent!r}")
         size, type_ = struct.unpack_from(">I4s", data, pos)
         hdr = 8
-        form = "32"
         if size == 1:
             if end - pos < 16:
                 raise BoxError(f"truncated largesize at {pos}")
             size = struct.unpack_from(">Q", data, pos + 8)[0]
             hdr = 16
-            form = "64"
         elif size == 0:
             if parent is not None:
                 raise BoxError(f"size==0 box {type_!r} at {pos} inside {parent!r}")
             size = end - pos
-            form = "0"
         usertype = None
         if type_ == b"uuid":
             usertype = data[pos + hdr:pos + hdr + 16]
@@ -945,7 +942,11 @@ def strategies(max_frags: int = 2):
     matrix = st.one_of(st.just(MATRIX_ID), st.lists(u(32), min_size=9, max_size=9))
     # 64-bit creation/modification times: seconds since 1904; 32-bit range always representable
     time32 = st.one_of(st.sampled_from([0, 1, 2**32 - 1, 2**31, 3786825600]), st.integers(0, 2**32 - 1))
-    time64 = st.one_of(*([time32] * 9), u(64))
+    # one_of() with repeated branches does not give the intended odds: weight explicitly
+    def rarely(k, rare, common):
+        return st.integers(0, k - 1).flatmap(lambda i: rare if i == 0 else common)
+
+    time64 = rarely(10, u(64), time32)
 
     def with_hdr(strategy):
         return st.tuples(strategy, hdr_form).map(lambda t: t[0] if t[1] == "32" else {**t[0], "hdr": t[1]})
@@ -1028,7 +1029,7 @@ def strategies(max_frags: int = 2):
     @st.composite
     def emsg(draw):
         v = draw(vsel(1))
-        d = {"t": "emsg", "v": v, "f": 0, "scheme_id_uri": draw(uri_s), "value": draw(st.one_of(*([ascii_s] * 11), utf8_s)),
+        d = {"t": "emsg", "v": v, "f": 0, "scheme_id_uri": draw(uri_s), "value": draw(rarely(16, utf8_s, ascii_s)),
              "timescale": draw(u(32)), "event_duration": draw(u(32)), "id": draw(u(32)), "data": draw(hexs(0, 30))}
         if v == 0:
             d["presentation_time_delta"] = draw(u(32))
@@ -1037,9 +1038,10 @@ def strategies(max_frags: int = 2):
         return d
 
     @st.composite
-    def schm(draw):
+    def schm(draw, iv=8):
         f = draw(st.integers(0, 1))
-        d = {"t": "schm", "v": 0, "f": f, "scheme_type": draw(st.sampled_from(["cenc", "cbcs", "cbc1", "cens", "piff"])),
+        # a constant IV (per-sample IV size 0) only exists in the cbcs scheme (23001-7 10.4)
+        d = {"t": "schm", "v": 0, "f": f, "scheme_type": "cbcs" if iv == 0 else draw(st.sampled_from(["cenc", "cbcs", "cbc1", "cens", "piff"])),
              "scheme_version": draw(st.one_of(st.just(0x00010000), u(32)))}
         if f:
             d["scheme_uri"] = draw(uri_s)
@@ -1140,7 +1142,7 @@ def strategies(max_frags: int = 2):
 
     @st.composite
     def sinf(draw, fmt, iv):
-        kids = [draw(frma(fmt)), draw(schm()), {"t": "schi", "c": [draw(with_hdr(tenc(iv)))]}]
+        kids = [draw(frma(fmt)), draw(schm(iv)), {"t": "schi", "c": [draw(with_hdr(tenc(iv)))]}]
         if draw(st.integers(0, 5)) == 0:
             kids.insert(draw(st.integers(1, 3)), draw(unknown))
         return {"t": "sinf", "c": kids}
@@ -1177,8 +1179,8 @@ def strategies(max_frags: int = 2):
                 kids.append(draw(sinf(kind, iv)))
             if draw(st.booleans()):
                 kids.append(draw(btrt))
-            return {"t": t, "data_reference_index": dri, "channelcount": draw(st.sampled_from([2, 2, 1, 6, 8, 0])),
-                    "samplesize": draw(st.sampled_from([16, 16, 24, 0])),
+            return {"t": t, "data_reference_index": dri, "channelcount": draw(st.sampled_from([2, 2, 1, 6, 8])),
+                    "samplesize": draw(st.sampled_from([16, 16, 24, 32])),
                     "samplerate": draw(st.sampled_from([48000, 44100, 22050, 0, 65535, 1])), "c": kids}
         if kind == "stpp":
             kids = []
@@ -1243,7 +1245,7 @@ def strategies(max_frags: int = 2):
     sample_flags = st.sampled_from([0, 0x02000000, 0x01010000, 0xFFFFFFFF, 0x00010000])
 
     @st.composite
-    def traf(draw, iv, layout, multi_trun):
+    def traf(draw, iv, layout, multi_trun, exact_sizes=False):
         n = draw(st.sampled_from([1, 2, 3, 5, 8]))
         tf = draw(st.sampled_from([0, 0x2, 0x8, 0x10, 0x20, 0x38, 0x3A])) | draw(st.sampled_from([0, 0, 0x2, 0x8, 0x10, 0x20]))
         # duration-is-empty: "there are no samples for this time interval" (8.8.7.1) - such a traf carries no runs
@@ -1287,6 +1289,8 @@ def strategies(max_frags: int = 2):
             f = draw(st.sampled_from([0x200, 0x300, 0x700, 0xF00, 0xB00, 0x100, 0x0, 0x800, 0xA00, 0x400]))
             if not f & 0x400 and draw(st.booleans()):      # first-sample-flags and sample-flags exclude each other (8.8.8.1)
                 f |= 0x4
+            if exact_sizes:
+                f |= 0x200      # where one run starts depends on the sizes of the samples before it: keep them in the run
             if layout != "explicit-mdat" or truns or draw(st.booleans()):
                 f |= 0x1
             smp = []
@@ -1361,7 +1365,7 @@ def strategies(max_frags: int = 2):
         if iv is not None and layout in ("explicit-mdat", "explicit-far"):
             layout = "explicit-moof"      # saio offsets are unsigned: the base cannot lie behind the senc box
         kids = [draw(with_hdr(st.just({"t": "mfhd", "v": 0, "f": 0, "sequence_number": draw(u(32))})))]
-        kids += [draw(traf(iv, layout, shape == "multi-trun")) for _ in range(ntraf)]
+        kids += [draw(traf(iv, layout, shape == "multi-trun", shape != "plain")) for _ in range(ntraf)]
         if draw(st.integers(0, 5)) == 0:
             kids.append(draw(with_hdr(pssh())))
         out.append({"t": "moof", "c": kids, "_layout": layout, "_shape": shape})
